@@ -18,6 +18,7 @@ class Ctx:
         self.folder = Folder(self.prog)
         self._callees: dict[str, list[tuple[ast.Call, str | None]]] = {}
         self._callers: dict[str, list[tuple[FuncInfo, ast.Call]]] | None = None
+        self.touched: set[str] = set()  # functions the rules asked about (anchors of the run)
         nr = set()
         for fi in self.prog.functions.values():
             r = fi.node.returns
@@ -31,15 +32,20 @@ class Ctx:
 
     # -- basics -----------------------------------------------------------
     def func(self, q: str) -> FuncInfo:
-        return self.prog.func(q)
+        fi = self.prog.func(q)
+        self.touched.add(fi.qualname)
+        return fi
 
     def cls(self, q: str) -> ClassInfo:
-        return self.prog.cls(q)
+        ci = self.prog.cls(q)
+        self.touched.update(m.qualname for m in ci.methods.values())
+        return ci
 
     def module(self, q: str) -> ModuleInfo:
         return self.prog.module(q)
 
     def cfg(self, fi: FuncInfo) -> CFG:
+        self.touched.add(fi.qualname)
         g = build_cfg(fi.node)
         if g.scope is None:
             from .pattern import scope_of
